@@ -522,12 +522,12 @@ class Package(Module):
 
 # List of exceptions class names in the standard library, Python 3.8.10
 _STD_LIB_EXCEPTIONS = ('ArithmeticError', 'AssertionError', 'AttributeError', 
-    'BaseException', 'BlockingIOError', 'BrokenPipeError', 
+    'BaseException', 'BaseExceptionGroup', 'BlockingIOError', 'BrokenPipeError', 
     'BufferError', 'BytesWarning', 'ChildProcessError', 
     'ConnectionAbortedError', 'ConnectionError', 
     'ConnectionRefusedError', 'ConnectionResetError', 
-    'DeprecationWarning', 'EOFError', 
-    'EnvironmentError', 'Exception', 'FileExistsError', 
+    'DeprecationWarning', 'EOFError', 'EncodingWarning', 
+    'EnvironmentError', 'Exception', 'ExceptionGroup', 'FileExistsError', 
     'FileNotFoundError', 'FloatingPointError', 'FutureWarning', 
     'GeneratorExit', 'IOError', 'ImportError', 'ImportWarning', 
     'IndentationError', 'IndexError', 'InterruptedError', 
